@@ -121,6 +121,7 @@ func parseHarnessFile(path string) (*HarnessFile, error) {
 // Group is a set of harness files that share one load (same package, tags, backend).
 type Group struct {
 	Files      []*HarnessFile
+	Extra      []*HarnessFile
 	Pkg        string
 	PkgName    string
 	Tags       string
@@ -170,6 +171,16 @@ func groupFiles(files []*HarnessFile) []*Group {
 	for _, k := range order {
 		out = append(out, m[k])
 	}
+	// files of the same package/tags but another backend are compiled along (shared helpers);
+	// their harness functions run in their own group
+	for _, g := range out {
+		for _, g2 := range out {
+			if g2 != g && g2.Pkg == g.Pkg && g2.Tags == g.Tags {
+				g.Extra = append(g.Extra, g2.Files...)
+				g.Roots = append(g.Roots, g2.Roots...)
+			}
+		}
+	}
 	return out
 }
 
@@ -177,6 +188,7 @@ type Loaded struct {
 	prog       *ssa.Program
 	hpkg       *ssa.Package
 	harnesses  []*ssa.Function
+	allHarnesses []*ssa.Function
 	intercepts map[string]*ssa.Function
 	loadS      float64
 	overlay    map[string]string // virtual path -> real path (for native runs)
@@ -187,6 +199,9 @@ func (g *Group) overlayFiles(scratch string) (map[string]string, error) {
 	pkgDir := filepath.Join(repoDir, strings.TrimPrefix(g.Pkg, "./"))
 	ov := map[string]string{}
 	for _, f := range g.Files {
+		ov[filepath.Join(pkgDir, "zz_verif_"+filepath.Base(f.Path))] = f.Path
+	}
+	for _, f := range g.Extra {
 		ov[filepath.Join(pkgDir, "zz_verif_"+filepath.Base(f.Path))] = f.Path
 	}
 	rt := filepath.Join(scratch, "zz_verif_rt_"+g.PkgName+".go")
@@ -315,8 +330,16 @@ func loadGroup(g *Group, scratch string) (*Loaded, error) {
 		}
 	}
 	sort.Strings(names)
+	own := map[string]bool{}
+	for _, f := range g.Files {
+		own["zz_verif_"+filepath.Base(f.Path)] = true
+	}
 	for _, n := range names {
-		ld.harnesses = append(ld.harnesses, ld.hpkg.Func(n))
+		fn := ld.hpkg.Func(n)
+		ld.allHarnesses = append(ld.allHarnesses, fn)
+		if own[filepath.Base(prog.Fset.Position(fn.Pos()).Filename)] {
+			ld.harnesses = append(ld.harnesses, fn)
+		}
 	}
 	for from, to := range g.Intercepts {
 		fn := ld.hpkg.Func(to)
